@@ -251,7 +251,7 @@ func repoFrame() string {
 }
 
 // stepFuel bounds every guarded library call (a typical render needs 10^3..10^4 steps).
-const stepFuel = 1_000_000
+const stepFuel = 200_000
 
 // fuelOuts counts guarded calls stopped by the step fuel since the shard loop last reset
 // it (guardMaxSteps: the most steps any completed call used). How many steps a render takes
